@@ -15,7 +15,7 @@ from . import common, rel, tlc
 
 TIERS = {
     "quick": dict(depth=2, sample=500, sim_num=60, sim_depth=4, stages=["simplified-logical", "simplified-physical", "fused"]),
-    "thorough": dict(depth=2, sample=None, sim_num=1500, sim_depth=5,
+    "thorough": dict(depth=2, sample=None, sim_num=200, sim_depth=4,
                      stages=["simplified-logical", "tuned-logical", "physical", "simplified-physical", "fused"]),
 }
 
